@@ -311,17 +311,19 @@ def connTpcAbort (s : State) : State :=
 
 /-! ### transaction boundaries -/
 
-/-- body of the loop of `newTransaction`: invalidate what other connections committed -/
-def pollOne (s : State) (p : Oid × ObjId) : State :=
-  let o := s.objs p.2
-  match s.committed.get p.1 with
-  | some r => if o.status ≠ .ghost ∧ r.serial ≠ o.serial then setO s p.2 { o with status := .ghost } else s
-  | none => s
+/-- body of the loop of `newTransaction`: `cache.invalidate(oid)` for an oid that another connection
+    committed since the object was loaded -/
+def pollOne (s : State) (k : Oid) : State :=
+  match s.cache.get k, s.committed.get k with
+  | some i, some r =>
+    let o := s.objs i
+    if o.status ≠ .ghost ∧ r.serial ≠ o.serial then setO s i { o with status := .ghost } else s
+  | _, _ => s
 
 /-- `newTransaction`: new snapshot, invalidations applied -/
 def poll (s : State) : State :=
   let s := { s with snap := s.committed }
-  s.cache.foldl pollOne s
+  s.cache.keys.foldl pollOne s
 
 /-- `afterCompletion` (the connection is a synchronizer of its transaction manager while open) -/
 def afterCompletion (s : State) : State :=
